@@ -45,6 +45,8 @@ def run(ck, progs):
     ck.rule("C08.8", "the control-message broadcast (GVT start, termination) reaches every rank, and one worker is started per thread id and every worker joined: evaluated over the loop indices for 1..8 ranks / threads")
     ck.rule("C08.9", "after a message count the shares of total_sent[] zeroed by threads 0..t-1 cover the entries of ranks 0..n-1 (a stale "
                      "entry makes a rank wait for messages it already received and the round never ends): evaluated for 1..8 ranks x threads")
+    ck.rule("C08.13", "the worker loop goes on exactly while the count of awaited termination notices is positive (surplus notices, which the protocol "
+                      "produces, take it below zero and must not restart the wait)")
     ck.rule("C08.12", "a GVT round ends: the node-level bookkeeping balances (see C04.11), so no rank waits for messages or threads that never come")
     ck.rule("C08.11", "exactly one thread of one rank opens GVT rounds, only when every rank acknowledged the previous round, and every rank sends its GVT_DONE notice to that rank (which waits for one notice per rank before "
                       "the next round; otherwise no further GVT is computed and termination is never detected)")
@@ -55,6 +57,7 @@ def run(ck, progs):
         rules_cover.check_rank_has_worker(ck, P, "C08.10")
         rules_gvt.check_round_completion_notice(ck, P, "C08.11")
         rules_gvt.check_node_protocol(ck, P, "C08.12")
+        _loop_test_absorbs_extra_notices(ck, P, cfg)
         rules_cover.check_partition_clear(ck, P, "C08.9")
         rules_cover.check_spawn_join(ck, P, "C08.8")
         _after_node_barrier(ck, P, cfg)
@@ -398,3 +401,39 @@ def _stop(ck, P, cfg):
         ck.holds("C08.7", inst, b.where, "%s broadcasts: every rank's counter of %s pending ranks reaches zero whatever was already received" % (count_ok[1], "n_nodes"), cfg)
     else:
         ck.violated("C08.7", inst, b.where, "only %s termination broadcast(s): a rank waiting for n_nodes notices keeps running" % count_ok[1], cfg)
+
+
+def _loop_test_absorbs_extra_notices(ck, P, cfg):
+    """Termination notices can outnumber what a rank waits for (a vote-triggered broadcast plus RootsimStop, RootsimStop called twice, its
+    n_nodes + 1 broadcasts): the counter then passes below zero, and the worker loop must treat every value <= 0 as 'may end'."""
+    from ..rules_gvt import _counter_test_truth
+    w = P.fn("parallel_thread_run")
+    inst = "loop-test@parallel_thread_run"
+    loops = [l for l in w.walk() if l.k == "WhileStmt" and not l.macros]
+    tests = []
+    for l in loops:
+        cond = [x for x in l.children if x.k != "Null"][0]
+        loads = [y for y in cond.walk() if y.k == "AtomicExpr" and Q.atomic_kind(y) == "load" and Q.atomic_target(y)[1] == "nodes_to_end"]
+        if loads:
+            tests.append((l, cond, loads[0]))
+    if len(tests) != 1:
+        ck.inconclusive("C08.13", inst, w.where, "the worker loop's test of nodes_to_end was not recognised", cfg)
+        return
+    l, cond, a = tests[0]
+    core, neg = X.strip_bool(cond)
+    ti = a.d.get("ti")
+    bad = None
+    for v in (-3, -1, 0, 1, 2):
+        val = v
+        if ti and not ti[1]:
+            val = v & ((1 << ti[0]) - 1)        # an unsigned counter wraps instead of going negative
+        tr = _counter_test_truth(core, neg, a, val, 1)
+        if tr is None:
+            ck.inconclusive("C08.13", inst, cond.where, "loop test `%s` not evaluable" % X.show(cond)[:60], cfg)
+            return
+        if tr != (v > 0) and bad is None:
+            bad = (v, tr)
+    if bad:
+        ck.violated("C08.13", inst, cond.where, "with nodes_to_end == %d the worker loop %s: one termination notice more than the rank was waiting for (a vote-triggered broadcast plus RootsimStop, or two stop requests) takes the counter past zero and the workers never leave their loop" % (bad[0], "goes on" if bad[1] else "ends"), cfg)
+    else:
+        ck.holds("C08.13", inst, cond.where, "the loop goes on exactly while the counter is positive: surplus notices are absorbed", cfg)
